@@ -39,27 +39,30 @@ func (t *TransactionBase) Done() <-chan struct{} {
 func (t *TransactionBase) Success() {
 	t.mutex.Lock()
 	defer t.mutex.Unlock()
-
-	t.finish()
+	t.finish(nil)
 }
 
 // You must acquire write lock on t.mutex before calling this function!
-func (t *TransactionBase) finish() {
+//
+// A transaction finishes at most once: if it has already finished, the result
+// stays unchanged and the finally callback is not called again.
+func (t *TransactionBase) finish(e error) {
+	select {
+	case <-t.done:
+		return
+	default:
+	}
+	t.err = e
 	if t.finally != nil {
 		t.finally()
 	}
-	select {
-	case <-t.done:
-	default:
-		close(t.done)
-	}
+	close(t.done)
 }
 
 // Transaction.Err() implementation.
 func (t *TransactionBase) Err() error {
 	t.mutex.RLock()
 	defer t.mutex.RUnlock()
-
 	return t.err
 }
 
@@ -67,7 +70,5 @@ func (t *TransactionBase) Err() error {
 func (t *TransactionBase) Fail(e error) {
 	t.mutex.Lock()
 	defer t.mutex.Unlock()
-
-	t.err = e
-	t.finish()
+	t.finish(e)
 }
